@@ -3,7 +3,7 @@
    Request = opcode :: length-prefixed strings. *)
 From Coq Require Import List NArith Bool Arith.
 Import ListNotations.
-From PV Require Import Regex Base UnicodeTables LexTables PyRepr Lexer.
+From PV Require Import Regex Base UnicodeTables LexTables PyRepr Lexer AstDefs AstSpec AstImpl NodeModel.
 Open Scope N_scope.
 
 Definition US : N := 31.  (* field separator *)
@@ -48,10 +48,120 @@ Definition api_master (req: list N) : str :=
 Definition api_repr (req: list N) : str :=
   let (text, _) := rd_str req in py_repr text.
 
+(* ---- generic nodes (C14, C15) ---------------------------------------------------- *)
+Definition val := value str.   (* coordinate = its printed form *)
+
+Fixpoint rd_value (fuel: nat) (l: list N) : option (val * list N) :=
+  match fuel with
+  | O => None
+  | S f =>
+    let fix rd_many (n: nat) (l: list N) : option (list val * list N) :=
+      match n with
+      | O => Some ([], l)
+      | S n' => match rd_value f l with
+                | Some (v, l1) => match rd_many n' l1 with Some (vs, l2) => Some (v :: vs, l2) | None => None end
+                | None => None
+                end
+      end in
+    match l with
+    | 0 :: r => Some (VNone, r)
+    | 1 :: r => let (s, r') := rd_str r in Some (VStr s, r')
+    | 2 :: n :: r => match rd_many (N.to_nat n) r with Some (vs, r') => Some (VList vs, r') | None => None end
+    | 3 :: ci :: n :: r =>
+      match nth_error all_cls (N.to_nat ci), rd_many (N.to_nat n) r with
+      | Some c, Some (vs, 0 :: r') => Some (VNode c vs None, r')
+      | Some c, Some (vs, 1 :: r') => let (s, r'') := rd_str r' in Some (VNode c vs (Some s), r'')
+      | _, _ => None
+      end
+    | _ => None
+    end
+  end.
+
+Definition coord_str (co: option str) : str := match co with Some s => s | None => s2l "None" end.
+Definition RFUEL : nat := 200.
+Definition repr_v (v: val) : str := repr_value str isprintable RFUEL v.
+Definition s_ERR := s2l "ERR".
+
+Definition api_children (req: list N) : str :=
+  match rd_value RFUEL req with
+  | Some (v, _) => match children str v with
+                   | Some ch => join_str [RS] (map (fun p => fields [fst p; repr_v (snd p)]) ch)
+                   | None => s_ERR end
+  | None => s2l "BADVALUE"
+  end.
+
+Definition api_iter (req: list N) : str :=
+  match rd_value RFUEL req with
+  | Some (v, _) => match iter str v with
+                   | Some ch => join_str [RS] (map repr_v ch)
+                   | None => s_ERR end
+  | None => s2l "BADVALUE"
+  end.
+
+Definition nb (x: N) : bool := negb (N.eqb x 0).
+
+Definition api_show (req: list N) : str :=
+  match req with
+  | a :: b :: c :: d :: r =>
+    match rd_value RFUEL r with
+    | Some (v, _) =>
+      match show str isprintable coord_str {| so_attrnames := nb a; so_showemptyattrs := nb b; so_nodenames := nb c; so_showcoord := nb d |}
+                 RFUEL 0 None v with
+      | Some s => s
+      | None => s_ERR
+      end
+    | None => s2l "BADVALUE"
+    end
+  | _ => s2l "BADREQ"
+  end.
+
+Definition api_repr_node (req: list N) : str :=
+  match rd_value RFUEL req with
+  | Some (v, _) => repr_v v
+  | None => s2l "BADVALUE"
+  end.
+
+(* handlers: n pairs (class index, 1 = visit_X without generic_visit, 2 = with) *)
+Fixpoint rd_handlers (n: nat) (l: list N) : list (N * N) * list N :=
+  match n with
+  | O => ([], l)
+  | S n' => match l with
+            | a :: b :: r => let (hs, r') := rd_handlers n' r in ((a, b) :: hs, r')
+            | _ => ([], l)
+            end
+  end.
+
+Definition handler_from (hs: list (N * N)) (c: cls) : handler :=
+  match find (fun p => N.eqb (fst p) (cls_index c)) hs with
+  | Some (_, 1) => H_stop
+  | Some (_, _) => H_recurse
+  | None => H_generic
+  end.
+
+Definition api_visit (req: list N) : str :=
+  match req with
+  | n :: r =>
+    let (hs, r') := rd_handlers (N.to_nat n) r in
+    match rd_value RFUEL r' with
+    | Some (v, _) =>
+      match visit str (handler_from hs) RFUEL [] v with
+      | Some (ev, _) => join_str [RS] (map (fun e : cls * bool => fields [cls_name (fst e); if snd e then s2l "1" else s2l "0"]) ev)
+      | None => s_ERR
+      end
+    | None => s2l "BADVALUE"
+    end
+  | _ => s2l "BADREQ"
+  end.
+
 Definition handle (req: list N) : str :=
   match req with
   | 1 :: r => api_lex r
   | 2 :: r => api_master r
   | 3 :: r => api_repr r
+  | 10 :: r => api_children r
+  | 11 :: r => api_iter r
+  | 12 :: r => api_show r
+  | 13 :: r => api_repr_node r
+  | 14 :: r => api_visit r
   | _ => s2l "BADREQ"
   end.
